@@ -42,8 +42,60 @@ def _body():
     return {"_get_render_size_": lambda s: None, "_render_": lambda s, d, a: None}
 
 
+def pv(x):
+    """a value of a case -> the Python value: ints as they are, "b1" -> True, "f1" -> 1.0.
+    `True == 1 == 1.0` (and their hashes): the Lean model works on the integer image, the type-aware
+    part of the oracle on `repr`."""
+    if isinstance(x, str):
+        return bool(int(x[1:])) if x[0] == "b" else float(int(x[1:]))
+    return x
+
+
+def im(x):
+    """integer image of a case value / of a Python value read back from the real objects"""
+    if isinstance(x, str) and x[:1] in ("b", "f") and x[1:].lstrip("-").isdigit():
+        return int(x[1:])
+    if isinstance(x, (bool, int)):
+        return int(x)
+    if isinstance(x, float) and x == int(x):
+        return int(x)
+    return repr(x)
+
+
 def ints(xs):
-    return ",".join(str(x) for x in xs)
+    return ",".join(str(im(x)) for x in xs)
+
+
+def typed(v):
+    """value of a RenderArgs with every field as `repr` (so that 1, True and 1.0 differ)"""
+    return (v[0], sorted((k, tuple(repr(x) for x in vs)) for k, vs in v[1]))
+
+
+_NAME_POOL: dict = {}
+
+
+def field_name(nscls, idx):
+    """the keyword used for field position `idx` of a namespace class: its own field names, and for
+    an unknown position (>= number of fields) a name drawn from: the next positional name (a field of
+    a sibling/ancestor class), arbitrary names, and EVERY non-field attribute of the namespace class
+    (methods, class attributes, dunders, `_FIELDS`, `_RENDER_CLS`, `__slots__`, ...)"""
+    if nscls is None:
+        return f"f{idx}"
+    pool = _NAME_POOL.get(nscls)
+    if pool is None:
+        fields = list(nscls.get_fields())
+        attrs = sorted(a for a in dir(nscls) if a not in fields)
+        pool = _NAME_POOL[nscls] = (len(fields), ["x", "baz"] + attrs)
+    nf, names = pool
+    if idx < nf:
+        return f"f{idx}"
+    j = idx - nf
+    return f"f{idx}" if j == 0 else names[(j - 1) % len(names)]
+
+
+def n_unknown_names(nscls):
+    field_name(nscls, 0)
+    return 1 + len(_NAME_POOL[nscls][1])
 
 
 def tok_list(xs, f=str):
@@ -51,12 +103,16 @@ def tok_list(xs, f=str):
     return " ".join([str(len(xs))] + [f(x) for x in xs])
 
 
+def tok_vals(vs):
+    return tok_list(vs, lambda x: str(im(x)))
+
+
 def tok_ns(ns):
-    return f"{ns[0]} {tok_list(ns[1])}"
+    return f"{ns[0]} {tok_vals(ns[1])}"
 
 
 def tok_fields(fs):
-    return tok_list(fs, lambda f: f"{f[0]} {f[1]}")
+    return tok_list(fs, lambda f: f"{f[0]} {im(f[1])}")
 
 
 def tok_opt(v, f=str):
@@ -91,7 +147,7 @@ def cmd_tokens(c) -> str:
     if op == "get":
         return f"get {c[1]} {c[2]}"
     if op == "nsi":
-        return f"nsi {c[1]} {tok_list(c[2])} {tok_fields(c[3])}"
+        return f"nsi {c[1]} {tok_vals(c[2])} {tok_fields(c[3])}"
     if op == "nsu":
         return f"nsu {tok_ns(c[1])} {tok_fields(c[2])}"
     # def-history commands
@@ -148,7 +204,7 @@ class World:
         return out  # self first
 
     def ns(self, spec):
-        return self.nscls[spec[0]](*spec[1])
+        return self.nscls[spec[0]](*[pv(x) for x in spec[1]])
 
     def ns_val(self, ns):
         return (self.idx(ns.get_render_cls()), tuple(ns.as_dict().values()))
@@ -170,8 +226,9 @@ class World:
         self.objs.append(ra)
         return len(self.objs) - 1
 
-    def kw(self, fields):
-        return {f"f{i}": v for i, v in fields}
+    def kw(self, fields, ci=None):
+        nscls = None if ci is None else self.nscls.get(ci)
+        return {field_name(nscls, i): pv(v) for i, v in fields}
 
     # -- one command on the real code; returns the canonical result string
     def exec(self, c) -> str:
@@ -198,7 +255,7 @@ class World:
             elif op == "upn":
                 res = self.objs[c[1]].update(self.ns(c[2]), *[self.ns(n) for n in c[3]], **self.kw(c[4]))
             elif op == "upc":
-                res = self.objs[c[1]].update(self.classes[c[2]], *[self.ns(n) for n in c[3]], **self.kw(c[4]))
+                res = self.objs[c[1]].update(self.classes[c[2]], *[self.ns(n) for n in c[3]], **self.kw(c[4], c[2]))
             elif op == "cv":
                 res = self.objs[c[1]].convert(self.classes[c[2]])
             elif op == "or":
@@ -228,11 +285,12 @@ class World:
                 v = self.ns_val(ns)
                 return f"n/{v[0]}:{ints(v[1])}"
             elif op == "nsi":
-                ns = self.nscls[c[1]](*c[2], **self.kw(c[3]))
+                ns = self.nscls[c[1]](*[pv(x) for x in c[2]], **self.kw(c[3], c[1]))
                 v = self.ns_val(ns)
                 return f"n/{v[0]}:{ints(v[1])}"
             elif op == "nsu":
-                ns = self.ns(c[1]).update(**self.kw(c[2]))
+                self.last_operand = self.ns(c[1])
+                ns = self.last_operand.update(**self.kw(c[2], c[1][0]))
                 v = self.ns_val(ns)
                 return f"n/{v[0]}:{ints(v[1])}"
             else:
@@ -300,7 +358,7 @@ class Spec:
     def expect(self, c):
         """expected ("ok", value) / ("err", name) / ("same", i) / None (not a RenderArgs-returning op)"""
         op = c[0]
-        nsv = lambda n: (n[0], tuple(n[1]))  # noqa: E731
+        nsv = lambda n: (n[0], tuple(pv(x) for x in n[1]))  # noqa: E731
         if op == "mk":
             return self.build(c[1], None if c[2] is None else self.val(c[2]), [nsv(n) for n in c[3]])
         if op == "upn":
@@ -322,7 +380,7 @@ class Spec:
                 if any(f[0] >= len(cur) for f in c[4]):
                     return ("err", "UnknownArgsFieldError")
                 for f in c[4]:
-                    cur[f[0]] = f[1]
+                    cur[f[0]] = pv(f[1])
             return ("ok", (v[0], [(kk, tuple(cur)) if kk == k else (kk, vv) for kk, vv in v[1]]))
         if op == "cv":
             v = self.val(c[1])
@@ -360,6 +418,29 @@ class Spec:
         return None
 
 
+def snapshot(w, o):
+    """an existing set: its class, its constituent namespace OBJECTS (held, so compared by identity)
+    and their field values with types (`repr`)"""
+    try:
+        nss = list(o)
+        return (o.render_cls, nss, (w.idx(o.render_cls), [(w.idx(ns.get_render_cls()),
+                                                          tuple(repr(x) for x in ns.as_dict().values())) for ns in nss]))
+    except Exception as e:  # noqa: BLE001
+        return (None, [], (-1, [(-1, (type(e).__name__,))]))
+
+
+def snapshot_diff(b, a):
+    if a[0] is not b[0]:
+        return f"render_cls changed {b[2][0]} -> {a[2][0]}"
+    if a[2] != b[2]:
+        return f"field values changed {b[2][1]} -> {a[2][1]}"
+    if len(a[1]) != len(b[1]) or any(x is not y for x, y in zip(a[1], b[1])):
+        which = [i for i, (x, y) in enumerate(zip(b[1], a[1])) if x is not y]
+        return (f"constituent namespace(s) #{which} were replaced by other objects "
+                f"(field values {b[2][1]} compare unchanged)")
+    return None
+
+
 def same_value(a, b):
     """same class, same namespaces (the order of namespaces is not part of the contract)"""
     return a[0] == b[0] and sorted(a[1]) == sorted(b[1])
@@ -375,25 +456,33 @@ def replay(cmds, with_oracle=True):
         for n, c in enumerate(cmds):
             exp = None
             before = None
+            if any(ref >= len(w.objs) for ref in refs_of(c)):
+                # only when the code under test numbered its results differently from the recorded run
+                out.append("no-such-object")
+                continue
             if with_oracle and c[0] != "dc":
                 try:
                     exp = spec.expect(c)
                 except Exception as e:  # noqa: BLE001
                     exp = None
                     problems.append((f"oracle-crash/{c[0]}", repr(e)))
-                before = [w.value(o) for o in w.objs]
+                before = [snapshot(w, o) for o in w.objs]
             r = w.exec(c)
             out.append(r)
             if not with_oracle or c[0] == "dc":
                 continue
             where = f"{c[0]}"
-            after = [w.value(o) for o in w.objs[: len(before)]]
-            if after != before:
-                problems.append((f"mutated/{where}", f"op #{n} {c} changed an existing object: {before} -> {after}"))
+            for oi, (o, b) in enumerate(zip(w.objs, before)):
+                diff = snapshot_diff(b, snapshot(w, o))
+                if diff:
+                    problems.append((f"mutated/{where}", f"op #{n} {c} altered existing object {oi} "
+                                     f"(a set for class {b[2][0]}): {diff}"))
+                    break
             if exp is not None:
                 if exp[0] == "err":
                     if r != "E:" + exp[1]:
-                        problems.append((f"reject/{where}/{exp[1]}", f"op #{n} {c}: expected {exp[1]}, got {r}"))
+                        kws = f" (keywords {sorted(w.kw(c[4], c[2]))})" if c[0] == "upc" and c[4] else ""
+                        problems.append((f"reject/{where}/{exp[1]}", f"op #{n} {c}{kws}: expected {exp[1]}, got {r}"))
                 elif r.startswith("E:") or not r.startswith("r"):
                     problems.append((f"accept/{where}", f"op #{n} {c}: expected a RenderArgs, got {r}"))
                 else:
@@ -404,6 +493,8 @@ def replay(cmds, with_oracle=True):
                             problems.append((f"same/{where}", f"op #{n} {c}: expected the operand itself, got object {i}"))
                     elif got[0] != exp[1][0] or sorted(got[1]) != sorted(exp[1][1]):
                         problems.append((f"value/{where}", f"op #{n} {c}: expected {exp[1]}, got {got}"))
+                    elif typed(got) != typed(exp[1]):
+                        problems.append((f"value-type/{where}", f"op #{n} {c}: expected {typed(exp[1])}, got {typed(got)}"))
             elif c[0] == "eq":
                 a, b = w.objs[c[1]], w.objs[c[2]]
                 want = same_value(w.value(a), w.value(b))
@@ -413,9 +504,43 @@ def replay(cmds, with_oracle=True):
                     problems.append(("hash", f"op #{n} {c}: equal sets hash differently"))
             elif c[0] == "has":
                 v = w.value(w.objs[c[1]])
-                want = (c[2][0], tuple(c[2][1])) in v[1]
+                want = (c[2][0], tuple(pv(x) for x in c[2][1])) in v[1]
                 if (r == "1") != want:
                     problems.append(("contains", f"op #{n} {c}: `in` is {r}, expected {want}"))
+            elif c[0] == "nsu":
+                ci, vals = c[1][0], [pv(x) for x in c[1][1]]
+                nf = len(w.defaults[ci])
+                if c[2] and any(f[0] >= nf for f in c[2]):
+                    if r != "E:UnknownArgsFieldError":
+                        problems.append(("unknown-field/nsu", f"op #{n} {c}: update(**{sorted(w.kw(c[2], ci))}) "
+                                         f"has an unknown field; expected UnknownArgsFieldError, got {r}"))
+                else:
+                    want = list(vals)
+                    for f in c[2]:
+                        want[f[0]] = pv(f[1])
+                    if r != f"n/{ci}:{ints(want)}":
+                        problems.append(("value/nsu", f"op #{n} {c}: got {r}, expected {want}"))
+                op_after = w.ns_val(w.last_operand)
+                if [repr(x) for x in op_after[1]] != [repr(x) for x in vals]:
+                    problems.append(("mutated/nsu", f"op #{n} {c}: update() altered the namespace itself: {op_after}"))
+            elif c[0] == "nsi":
+                ci = c[1]
+                d = list(w.defaults[ci])
+                nf = len(d)
+                if len(c[2]) > nf:
+                    want = "E:TypeError"
+                elif any(f[0] >= nf for f in c[3]):
+                    want = "E:UnknownArgsFieldError"
+                elif any(f[0] < len(c[2]) for f in c[3]):
+                    want = "E:TypeError"
+                else:
+                    vals = [pv(x) for x in c[2]] + d[len(c[2]):]
+                    for f in c[3]:
+                        vals[f[0]] = pv(f[1])
+                    want = f"n/{ci}:{ints(vals)}"
+                if r != want:
+                    key = "unknown-field/nsi" if want == "E:UnknownArgsFieldError" else "value/nsi"
+                    problems.append((key, f"op #{n} {c} (keywords {sorted(w.kw(c[3], ci))}): got {r}, expected {want}"))
             elif c[0] == "get":
                 v = w.value(w.objs[c[1]])
                 k = c[2]
@@ -445,7 +570,7 @@ def replay(cmds, with_oracle=True):
             for ci in range(1, len(w.classes)):
                 d = RenderArgs(w.classes[ci])
                 want = (ci, [spec.dfl(k) for k in spec.hier(ci)])
-                if not same_value(w.value(d), want):
+                if not same_value(w.value(d), want) or typed(w.value(d)) != typed(want):
                     problems.append(("default-set", f"RenderArgs(class {ci}) is {w.value(d)}, defaults are {want}"))
                 if RenderArgs(w.classes[ci]) is not d:
                     problems.append(("default-not-shared", f"RenderArgs(class {ci}) is not shared"))
@@ -494,7 +619,7 @@ class DWorld:
             return f"k{i}/{ints(fields)}/{int(assoc)}/{rci if assoc else '-'}"
         if c[0] == "inst":
             try:
-                ns = self.ns[c[1]](*c[2], **{f"f{i}": v for i, v in c[3]})
+                ns = self.ns[c[1]](*c[2], **{field_name(self.ns[c[1]], i): v for i, v in c[3]})
             except Exception as e:  # noqa: BLE001
                 return err_str(e)
             rc = ns.get_render_cls()
@@ -523,8 +648,8 @@ class DWorld:
         if c[0] == "dupd":
             try:
                 inst = self.dns[c[1]]()
-                inst.update(**{f"f{i}": v for i, v in c[2]})
-                return "u/" + ",".join(f"{i}={getattr(inst, f'f{i}')}" for i, _ in c[2])
+                inst.update(**{field_name(self.dns[c[1]], i): v for i, v in c[2]})
+                return "u/" + ",".join(f"{i}={getattr(inst, field_name(self.dns[c[1]], i))}" for i, _ in c[2])
             except Exception as e:  # noqa: BLE001
                 return err_str(e)
         return "harness-bad-op"
@@ -633,7 +758,13 @@ class Gen:
         return self.w.exec(c)
 
     def val(self):
+        if self.rng.random() < 0.15:  # ==-equal to an int but of another type
+            return self.rng.choice(["b0", "b1", "f0", "f1", "f2"])
         return self.rng.choice([0, 0, 0, 1, 1, 2, -1])
+
+    def retype(self, v):
+        """a value equal (==) to the int v, possibly of another type"""
+        return self.rng.choice([v, f"b{v}" if v in (0, 1) else v, f"f{v}"])
 
     def def_class(self):
         rng = self.rng
@@ -653,8 +784,8 @@ class Gen:
             return None
         ci = rng.choice(cands)
         d = self.w.defaults[ci]
-        if rng.random() < default_bias:
-            return [ci, list(d)]
+        if rng.random() < default_bias:  # equal to the class default (same values, or ==-equal ones)
+            return [ci, [self.retype(dv) for dv in d] if rng.random() < 0.35 else list(d)]
         return [ci, [self.val() if rng.random() < 0.7 else dv for dv in d]]
 
     def related(self, ci, how):
@@ -688,7 +819,12 @@ class Gen:
         d = self.w.defaults[ci]
         nf = len(d) if d is not None else 1
         k = rng.choice([0, 1, 1, 2])
-        idxs = rng.sample(range(nf + 1), min(k, nf + 1)) if rng.random() < unknown else rng.sample(range(nf), min(k, nf))
+        idxs = rng.sample(range(nf), min(k, nf))
+        if rng.random() < unknown:  # one unknown name (see field_name), alone or next to known ones
+            nscls = self.w.nscls.get(ci)
+            bad = nf + (rng.randrange(n_unknown_names(nscls)) if nscls is not None else 0)
+            idxs = idxs[: rng.choice([0, 1])] + [bad]
+            rng.shuffle(idxs)
         return [[i, self.val()] for i in idxs]
 
     def op(self):
@@ -808,7 +944,8 @@ def exhaustive_histories():
         [["mk", 1, None, [A0]], ["mk", 3, None, [A1]], ["mk", 3, None, []], ["mk", 3, 1, [C0]], ["mk", 2, None, [A0]]],
         [["mk", 3, None, [C1, A1]], ["mk", 1, None, []], ["cv", 1, 1], ["cv", 1, 2], ["mk", 2, 0, []]],
     ]
-    nsl = [A0, A1, C0, C1, X0]
+    A0b, A0f, C0b = [1, ["b0"]], [1, ["f0"]], [3, ["b0"]]   # == the defaults, other types
+    nsl = [A0, A1, C0, C1, X0, A0b, A0f, C0b]
     lists = [[]] + [[a] for a in nsl] + [[a, b] for a in nsl for b in nsl]
     for past in pasts:
         pre = forest + past
@@ -832,6 +969,20 @@ def exhaustive_histories():
         for a in nsl:
             for b in nsl:
                 yield pre + [["or", a, ["n", b]], ["ror", a, ["n", b]]]
+            yield pre + [["pos", a], ["tra", a, 3], ["mk", a[0], None, []]]
+    # every unknown keyword name (incl. every non-field attribute of the namespace class), one per command
+    pre = forest + pasts[1]
+    w = World()
+    try:
+        for c in pre:
+            w.exec(c)
+        nu = n_unknown_names(w.nscls[1])
+    finally:
+        w.cleanup()
+    yield pre + [["upc", 1, 1, [], [[1 + j, 1]]] for j in range(nu)]
+    yield pre + [["upc", 3, 1, [], [[0, 1], [1 + j, 1]]] for j in range(nu)]
+    yield pre + [["nsu", A1, [[1 + j, 2]]] for j in range(nu)] + [["nsu", A1, [[1 + j, 2], [0, 0]]] for j in range(nu)]
+    yield pre + [["nsi", 1, [], [[1 + j, 2]]] for j in range(nu)] + [["nsi", 3, [], [[0, 5], [1 + j, 2]]] for j in range(nu)]
 
 
 def gen_def(rng: random.Random):
@@ -852,7 +1003,9 @@ def gen_def(rng: random.Random):
             assoc = [j for j, d in enumerate(w.dinfo) if d["assoc"]]
             i = rng.choice(assoc) if assoc and rng.random() < 0.8 else rng.randrange(len(w.dns))
             nfl = w.dinfo[i]["n"]
-            fs = rng.sample(range(nfl + 2), rng.choice([0, 1, 1, 2]))
+            fs = rng.sample(range(nfl), min(nfl, rng.choice([0, 1, 1, 2])))
+            if rng.random() < 0.4:
+                fs.append(nfl + rng.randrange(n_unknown_names(w.dns[i])))
             c = ["dupd", i, [[j, rng.choice([3, 4])] for j in fs]]
         elif rng.random() < 0.7 or len(w.ns) == 1:
             nb = rng.choices([1, 2, 3], [0.85, 0.1, 0.05])[0]
@@ -868,7 +1021,9 @@ def gen_def(rng: random.Random):
             i = rng.choice(assoc) if assoc and rng.random() < 0.8 else rng.randrange(len(w.ns))
             nf = len(w.info[i]["fields"])
             nv = min(rng.choice([0, 0, 1, nf, nf + 1]), nf + 1)
-            fs = rng.sample(range(nf + 2), rng.choice([0, 0, 1, 2]))
+            fs = rng.sample(range(nf), min(nf, rng.choice([0, 0, 1, 2])))
+            if rng.random() < 0.35:
+                fs.append(nf + rng.randrange(n_unknown_names(w.ns[i])))
             c = ["inst", i, [rng.choice([0, 1, 5]) for _ in range(nv)], [[j, rng.choice([3, 4])] for j in fs]]
         cmds.append(c)
         w.exec(c)
@@ -965,7 +1120,7 @@ class C16(Property):
     def generate(self, rng: random.Random, tier: str):
         ex = list(exhaustive_histories())
         if tier == "quick":
-            ex = rng.sample(ex, 500)
+            ex = ex[-4:] + rng.sample(ex[:-4], 700)
         for cmds in ex:
             yield Case(run_line(cmds), {"cmds": cmds}, "exhaustive", True)
         while True:
@@ -1042,20 +1197,25 @@ def shrink_history(cmds, key):
     return cur, [p for p in problems if p[0] == key] or problems
 
 
+def refs_of(c):
+    refs = []
+    if c[0] == "mk" and c[2] is not None:
+        refs.append(c[2])
+    if c[0] in ("upn", "upc", "cv", "hash", "has", "get"):
+        refs.append(c[1])
+    if c[0] == "eq":
+        refs += [c[1], c[2]]
+    if c[0] in ("or", "ror") and c[2][0] == "r":
+        refs.append(c[2][1])
+    return refs
+
+
 def valid_refs(cmds):
     """object references must still exist after a deletion (results are numbered by first appearance)"""
     w = World()
     try:
         for c in cmds:
-            refs = []
-            if c[0] == "mk" and c[2] is not None:
-                refs.append(c[2])
-            if c[0] in ("upn", "upc", "cv", "hash", "has", "get"):
-                refs.append(c[1])
-            if c[0] == "eq":
-                refs += [c[1], c[2]]
-            if c[0] in ("or", "ror") and c[2][0] == "r":
-                refs.append(c[2][1])
+            refs = refs_of(c)
             if any(r >= len(w.objs) for r in refs):
                 return False
             w.exec(c)
